@@ -416,6 +416,8 @@ namespace pbt
       f << "],\n \"violation_replay\": \"" << jesc(viol_replay) << "\", \"violation_message\": \"" << jesc(viol_msg) << "\"\n}\n";
     }
 
+    std::string g_harness;
+
     std::string tape_str(const std::vector<uint16_t> &t)
     {
       std::ostringstream o;
@@ -479,6 +481,7 @@ namespace pbt
       std::ofstream f(path);
       f << "# verif replay file: decode the tape with the harness for this property (./check " << opt.prop << " --replay <this file>)\n";
       f << "prop: " << opt.prop << "\n";
+      f << "harness: " << g_harness << "\n";
       f << "sub: " << opt.sub << "\n";
       f << "excl:";
       for (auto &e : opt.excl)
@@ -501,6 +504,11 @@ namespace pbt
   int run(int argc, char **argv, CaseFn fn, Config (*cfg_for)(const Options &))
   {
     Options opt;
+    {
+      std::string a0 = argc > 0 ? argv[0] : "";
+      auto sl = a0.rfind('/');
+      g_harness = sl == std::string::npos ? a0 : a0.substr(sl + 1);
+    }
     long seed = 1, cases = 100, max_size = 100;
     int budget_ms = -1;
     std::string out, replay_dir = ".", replay;
